@@ -1749,6 +1749,7 @@ func RunC18(r *mon.Run) {
 	runSockets(r, s)
 	runLockStep(r, s)
 	s.checkKept(r)
+	runReplyShapes(r)
 	runWS(r)
 }
 
